@@ -478,15 +478,16 @@ DEFAULT_FALLBACKS = {
 }
 
 
-def run_kani_set(ctx, filters, bound, harness_timeout=300, features=None, jobs=None, expect_min=None, expected_fail=None, exact=False, fallback=None):
+def run_kani_set(ctx, filters, bound, harness_timeout=300, features=None, jobs=None, expect_min=None, expected_fail=None, exact=False, fallback=None, solver=None):
     """Run a set of Kani harnesses; every harness is one obligation. Failed checks are replayed natively and
     classified (violation / known finding / inconclusive).
     expected_fail: {harness short name: [regex of check messages that MUST fail]} -- used for 'documented panic'
     harnesses: the named panic has to be reported, and nothing else may fail (in particular not the
     `...:returned` marker placed after the call)."""
     expected_fail = expected_fail or {}
+    tag = (' [%s]' % solver) if solver else ''
     sc = ctx.scratch(features)
-    r = kani_run(sc, filters, jobs=jobs, harness_timeout=harness_timeout, extra=(['--exact'] if exact else []))
+    r = kani_run(sc, filters, jobs=jobs, harness_timeout=harness_timeout, extra=(['--exact'] if exact else []) + (['--solver', solver] if solver else []))
     ctx.checker_cmds.append(r['cmd'])
     if r['build_failed'] or (not r['results']):
         ctx.inconclusive.append('kani build/run failed for %s: %s' % (filters, r['out'][-1500:]))
@@ -508,20 +509,20 @@ def run_kani_set(ctx, filters, bound, harness_timeout=300, features=None, jobs=N
         exp_hit = [e for e in exp if any(re.search(e, fc[0]) for fc in h.failed_checks)]
         if h.status in ('ok', 'failed') and not fails and (h.status == 'ok' or exp):
             if exp and len(exp_hit) != len(exp):
-                ctx.record(short, 'K', 'inconclusive', detail='expected panic %s not reported' % exp, time_s=h.time, bound=bound)
+                ctx.record(short + tag, 'K', 'inconclusive', detail='expected panic %s not reported' % exp, time_s=h.time, bound=bound)
                 ctx.inconclusive.append('%s: expected documented panic not reported by CBMC (vacuous harness?)' % short)
             elif h.covers[0] != h.covers[1]:
-                ctx.record(short, 'K', 'inconclusive', detail='vacuity: only %d of %d cover witnesses reached' % h.covers, time_s=h.time, bound=bound)
+                ctx.record(short + tag, 'K', 'inconclusive', detail='vacuity: only %d of %d cover witnesses reached' % h.covers, time_s=h.time, bound=bound)
                 ctx.inconclusive.append('%s: %d of %d cover witnesses reached' % (short, h.covers[0], h.covers[1]))
             else:
-                ctx.record(short, 'K', 'held', time_s=h.time, bound=bound,
+                ctx.record(short + tag, 'K', 'held', time_s=h.time, bound=bound,
                            sample={'harness': short, 'cbmc_properties': h.nchecks, 'covers_reached': h.covers[0],
                                    'verdict': 'SUCCESSFUL' if not exp else 'only the documented panic fails', 'time_s': h.time})
         elif h.status == 'failed':
             for msg, f, line in (fails or [['(unnamed failure)', '', 0]]):
                 pending.append((name, short, msg, f, line, h))
         else:
-            ctx.record(short, 'K', 'inconclusive', detail=h.status, time_s=h.time, bound=bound)
+            ctx.record(short + tag, 'K', 'inconclusive', detail=h.status, time_s=h.time, bound=bound)
             ctx.inconclusive.append('%s: %s' % (short, h.status))
     if pending:
         reps = kani_replay_batch(sc, [(p[0], p[2]) for p in pending])
